@@ -358,6 +358,81 @@ def rf5s(run):
         for x in g.walk():
             if x['k'] == 'ReturnStmt' and x.get('c') and x['c'][0] is not None and F.src(F.strip(x['c'][0])) == 'err_node':
                 ret_err.add(g.name)
+    # ... or return a local that may hold it: assigned err_node, the result of such a function, or the result of a parser
+    # function called through a parameter (try_f)
+    def may_err(g, e):
+        e = F.strip(e)
+        if F.src(e) == 'err_node':
+            return True
+        if e['k'] == 'CallExpr':
+            if e.get('callee') in ret_err:
+                return True
+            c0 = F.strip(e['c'][0])
+            while c0['k'] == 'ParenExpr':
+                c0 = F.strip(c0['c'][0])
+            if not e.get('callee') and c0['k'] == 'DeclRefExpr' and c0.get('dk') == 'param':
+                return True
+        return False
+    changed = True
+    while changed:
+        changed = False
+        for g in tu.func_list:
+            if g.name in ret_err or not g.file.startswith('/repo'):
+                continue
+            rv = {F.src(F.strip(x['c'][0])) for x in g.walk() if x['k'] == 'ReturnStmt' and x.get('c') and x['c'][0] is not None
+                  and F.strip(x['c'][0])['k'] == 'DeclRefExpr'}
+            if not rv:
+                continue
+            hit = False
+            for x in g.walk():
+                if x['k'] == 'BinaryOperator' and x['op'] == '=' and F.src(F.strip(x['c'][0])) in rv and may_err(g, x['c'][1]):
+                    hit = True
+                elif x['k'] == 'DeclStmt':
+                    for d in x.get('decls', []):
+                        if d['n'] in rv and d.get('init') is not None and may_err(g, d['init']):
+                            hit = True
+                if hit:
+                    break
+            if hit:
+                ret_err.add(g.name)
+                changed = True
+    # functions that write through, or store, their k-th parameter (fixpoint); a function that only reads the node
+    # (get_node_pos) does not make the sentinel shared state
+    fmap = {g.name: g for g in tu.func_list}
+    sink = set()   # (function name, parameter index)
+
+    def base_name(e):
+        e = F.strip(e)
+        while e['k'] in ('MemberExpr', 'ArraySubscriptExpr', 'ParenExpr') or (e['k'] == 'UnaryOperator' and e.get('op') in ('*', '&')):
+            e = F.strip(e['c'][0])
+        return e['n'] if e['k'] == 'DeclRefExpr' else None
+    changed = True
+    while changed:
+        changed = False
+        for g in tu.func_list:
+            pn = {q['n']: k for k, q in enumerate(g.params)}
+            if not pn or g.body is None:
+                continue
+            for x in g.walk():
+                hit = None
+                if x['k'] in ('BinaryOperator', 'CompoundAssignOperator') and x['op'].endswith('=') and x['op'] not in ('==', '!=', '<=', '>='):
+                    l_, r_ = F.strip(x['c'][0]), F.strip(x['c'][1])
+                    if l_['k'] != 'DeclRefExpr' and base_name(l_) in pn and l_['k'] == 'MemberExpr' and (l_.get('arrow') or F.strip(l_['c'][0])['k'] != 'DeclRefExpr'):
+                        hit = base_name(l_)       # write through the parameter
+                    elif r_['k'] == 'DeclRefExpr' and r_['n'] in pn and l_['k'] != 'DeclRefExpr':
+                        hit = r_['n']             # the parameter is stored in memory
+                elif x['k'] == 'CallExpr' and x.get('callee') in fmap:
+                    for k, a_ in enumerate(F.call_args(x)):
+                        a0 = F.strip(a_)
+                        if a0['k'] == 'DeclRefExpr' and a0['n'] in pn and (x['callee'], k) in sink:
+                            hit = a0['n']
+                            if (g.name, pn[hit]) not in sink:
+                                sink.add((g.name, pn[hit]))
+                                changed = True
+                    hit = None
+                if hit is not None and (g.name, pn[hit]) not in sink:
+                    sink.add((g.name, pn[hit]))
+                    changed = True
     n = 0
     for f in tu.func_list:
         if f.cfg_raw is None or not f.file.startswith('/repo'):
@@ -366,7 +441,7 @@ def rf5s(run):
         for x in f.walk():
             if x['k'] == 'BinaryOperator' and x['op'] == '=' and F.strip(x['c'][0])['k'] == 'DeclRefExpr' and F.strip(x['c'][0]).get('dk') == 'local':
                 r = F.strip(x['c'][1])
-                if F.src(r) == 'err_node':
+                if F.src(r) == 'err_node' or (r['k'] == 'CallExpr' and r.get('callee') in ret_err):
                     starts.append((x, F.strip(x['c'][0])['n']))
         if not starts:
             continue
@@ -393,9 +468,9 @@ def rf5s(run):
                         continue
                     for y in cfg.local_walk(e):
                         if y['k'] == 'CallExpr' and not (y.get('callee') or '').startswith(('VARR_', 'HTAB_')):
-                            for a_ in F.call_args(y):
+                            for k_, a_ in enumerate(F.call_args(y)):
                                 a0 = F.strip(a_)
-                                if a0['k'] == 'DeclRefExpr' and a0['n'] == v:
+                                if a0['k'] == 'DeclRefExpr' and a0['n'] == v and (y.get('callee') not in fmap or (y['callee'], k_) in sink):
                                     bad = y
                         if bad is not None:
                             break
@@ -407,6 +482,11 @@ def rf5s(run):
                     continue
                 if B.cond is not None and len(B.succs) == 2:
                     ct = F.src(F.strip(B.cond)).replace(' ', '').strip('()')
+                    cn = F.strip(B.cond)
+                    if cn['k'] == 'BinaryOperator' and cn['op'] in ('==', '!=') and F.src(F.strip(cn['c'][1])) == 'err_node':
+                        l_ = F.strip(cn['c'][0])
+                        if l_['k'] == 'BinaryOperator' and l_['op'] == '=' and F.src(F.strip(l_['c'][0])) == v:
+                            ct = '%s%serr_node' % (v, cn['op'])
                     if ct == '%s==err_node' % v:
                         if B.succs[0] is not None:
                             work.append((B.succs[0], False))
